@@ -293,7 +293,11 @@ impl<'a, 'b> InternalDelphiLogicalLineParser<'a, 'b> {
                 TT::Keyword(
                     keyword_kind @ (KK::Library | KK::Unit | KK::Program | KK::Package),
                 )
-                | TT::IdentifierOrKeyword(keyword_kind @ KK::Package) => {
+                | TT::IdentifierOrKeyword(keyword_kind @ KK::Package)
+                    // `package` is only a keyword at the start of the file; elsewhere it is a name
+                    if matches!(token_type, TT::Keyword(_))
+                        || self.get_token_type::<-1>().is_none() =>
+                {
                     if self.get_token_type::<-1>().is_none() {
                         self.consolidate_current_keyword();
                         let mut push_program_head_context = |context_type| {
